@@ -6,6 +6,7 @@ import ClairModel.Model.OsRelease
 import ClairModel.Model.PyMeta
 import ClairModel.Model.Pep440
 import ClairModel.Model.RpmPkg
+import ClairModel.Model.GoBin
 
 namespace Driver.C02
 open ClairModel.Bytes ClairModel.Rfc822 ClairModel
@@ -60,6 +61,42 @@ def showRpmPkg (p : RpmPkg.Pkg) : String :=
     | some s => ["src", hexB s.name, hexB s.version, hexB s.module]
   ",".intercalate ([hexB p.name, hexB p.version, hexB p.arch, hexB p.module] ++ src)
 
+def toChars (s : String) : Option (List Char) := (toBytes s).map bytesToChars
+def hexC (c : List Char) : String := hexB (charsToBytes c)
+
+def parseGoDep (w : String) : Option GoBin.Mod :=
+  match w.splitOn "," with
+  | [p, v] => match toChars p, toChars v with
+    | some p, some v => some ⟨p, v, none⟩
+    | _, _ => none
+  | [p, v, "r", rp, rv] => match toChars p, toChars v, toChars rp, toChars rv with
+    | some p, some v, some rp, some rv => some ⟨p, v, some (rp, rv)⟩
+    | _, _, _, _ => none
+  | _ => none
+
+def parseGoKV (w : String) : Option (List Char × List Char) :=
+  match w.splitOn "," with
+  | [k, v] => match toChars k, toChars v with
+    | some k, some v => some (k, v)
+    | _, _ => none
+  | _ => none
+
+def showGoPkg (p : GoBin.Pkg) : String :=
+  let n := match p.norm with
+    | none => "none"
+    | some v => String.ofList v.kind ++ ":" ++ ".".intercalate ((v.v.drop 1).take 3 |>.map toString)
+  ",".intercalate [hexC p.name, hexC p.version, n]
+
+def goAnswer (gv main nd : String) (rest : List String) : String :=
+  match toChars gv, main.splitOn ",", nd.toNat? with
+  | some gv, [mp, mv], some nd =>
+    match toChars mp, toChars mv, (rest.take nd).mapM parseGoDep, (rest.drop nd).mapM parseGoKV with
+    | some mp, some mv, some deps, some sets =>
+      let ps := GoBin.toPackages ⟨gv, mp, mv, deps, sets⟩
+      " ".intercalate (s!"ok {ps.length}" :: ps.map showGoPkg)
+    | _, _, _, _ => "bad-op"
+  | _, _, _ => "bad-op"
+
 def showErr : Err → String
   | .ok => "nil"
   | .eof => "eof"
@@ -109,6 +146,7 @@ def answer (l : String) : String :=
         | some ps => " ".intercalate (s!"ok {ps.length}" :: ps.map showRpmPkg)
         | none => "err"
       | none => "bad-op"
+  | "gobin" :: gv :: main :: nd :: rest => goAnswer gv main nd rest
   | ["reset"] => "ok"
   | _ => "bad-op"
 
